@@ -41,6 +41,11 @@ CLAIMED = {
    text="TLC explores the abstract scanner machine of Lexer.tla (15 modes x call-stack shapes x ~90 (quick) / ~250 (thorough) lexeme atoms) exhaustively up to the stack bound, checks TypeOK/StackDiscipline/Progress/TriviaTransparent on it and emits one behaviour per transition; each is concretised to bytes and, together with every truncation of its last lexeme and a trailing lone CR, every byte prefix of the corpus programs and a seeded random byte stream, parsed by the real code under >= 3 (version, callback) combinations with a 2 s + 50 us/byte deadline and a heap limit. Verdict = the property itself (no panic, no hang, input buffer unchanged); thorough adds a scaling ratio t(4n)/t(n). Right level: crashes here live at end-of-input inside specific lexical states, which the specification enumerates systematically.",
    note="Trusted: watchdog in harness/cmd/worker/main.go, lexicon spellings. TLA+ contributes the input space and Progress; the timing clause is a measurement (generous bound 12x for 4x input). One known finding (empty heredoc under >= 7.3, pinned by existing tests).",
    design="5 (C01), 3.3"),
+ "C04": dict(
+   technique="TLA+ scanner specification (Lexer.tla atoms, LexTok.tla token relation, cross-checked by TLC: Consistent) used in both directions: replay of the transition cover with exact expected token streams, and TLC trace validation (LexerTrace.tla: Tiling, Progress, mode/stack relation) of scanner traces recorded from the real lexer; plus token-by-token checks of every returned tree",
+   text="(1) Every behaviour of Lexer.tla's transition cover whose stream is fully prescribed is concretised and lexed by the real scanner: extents, free-floating classification and attachment order must match exactly. (2) Traces (one event per token/free-floating token with offsets, logged mode and stack, warning count, byte shape) of generated, corpus and random inputs under a >= 7.3 and a < 7.3 version are validated by TLC against LexerTrace.tla: contiguous tokens, a byte skipped only under a reported warning, no empty token, and the token-level mode relation; corrupted copies must be rejected (binding self-test). (3) Every tree returned for these inputs and for CRLF renderings is checked by the worker: value = source slice, 1-based lines by the LF/CRLF/CR rule, increasing disjoint offsets; with zero errors full tiling, free-floating classes, leaf value = token text.",
+   note="Trusted: lexicon spellings + conservative Fuses filter; shape computation in vf/lextrace.py; the independent line rule in analyze.go. Mode-relation rejections that are not tiling problems are reported as notes, not verdicts. One known finding (empty heredoc under >= 7.3).",
+   design="5 (C04), 3.3, 4.2"),
 }
 
 REASONS_PENDING = "check not built yet in this round; see DESIGN.md section 9 for the construction order"
